@@ -139,13 +139,20 @@ fn stress(report: &mut Report) -> Result<(), Fail> {
                 s.spawn(|| {
                     let mut mine = Vec::with_capacity(per);
                     for _ in 0..per {
-                        mine.push(ids.next().unwrap());
+                        match std::panic::catch_unwind(std::panic::AssertUnwindSafe(|| ids.next())) {
+                            Ok(Ok(id)) => mine.push(id),
+                            // reported below as a missing id (count mismatch)
+                            _ => break,
+                        }
                     }
                     all.lock().unwrap().extend(mine);
                 });
             }
         });
         let v = all.into_inner().unwrap();
+        if v.len() != 16 * per {
+            return violation("id-collision", format!("free-running stress: a request failed or panicked ({} of {} ids handed out)", v.len(), 16 * per));
+        }
         let set: BTreeSet<u32> = v.iter().copied().collect();
         if set.len() != v.len() {
             return violation("id-collision", format!("free-running stress: {} ids handed out, only {} distinct", v.len(), set.len()));
